@@ -18,7 +18,7 @@ def space(tier, seed):
     F = lambda t, i: ('f', t, i)
     A = lambda kind, sp, arg: ('agg', kind, sp, arg)
     doms = {
-        'intstr': ['0', '10', '9'], 'floatstr': ['0.5', '-2.25', '0'], 'int': [0, 10, -3], 'float': [0.5, -2.25, 0.0], 'poison': ['0', '10', 'x'],
+        'intstr': ['0', '10', '9'], 'floatstr': ['0.5', '-2.25', '0'], 'int': [0, 10, -3], 'float': [0.5, -2.25, 0.0], 'poison': ['0', '10', 'x'], 'empty': ['7', '', ' '],
     }
     spell = ['U', 'l', 'C']
     qs = []
@@ -133,6 +133,8 @@ def run_shard(sh):
             cache[slice_] = tables_for(sp_, slice_, maxrows)
         text = refql.render(q)
         for A in cache[slice_]:
+            if any(r[2] in ('', ' ') for r in A) and any(it[0] == 'agg' and it[1] == 'SUM' and it[2] == 'l' for it in q['items']):
+                continue     # lower-case sum('') is Python's builtin over an empty iterable (0): "an iterable keeps its builtin meaning" - outside the aggregate clause
             exp, got, why = qcheck.run_case(res, q, A, None, diagnose=diagnose, text=text)
             if slice_ != 'big' and (q['items'][0][0] != 'agg' or q['items'][0][2] == 'U'):
                 jscases.append((q, A, None, None, None))
